@@ -82,21 +82,44 @@ func cutOfBits(s string) (float64, error) {
 	return math.Float64frombits(b), nil
 }
 
-// jsonRoundTrip goes through the real WriteCodonJSON / ReadCodonJSON.
-func jsonRoundTrip(t codon.Table) (codon.Table, error) {
-	f, err := os.CreateTemp("", "verif-c08-*.json")
-	if err != nil {
-		return codon.Table{}, err
+// histFiles: the JSON files of ONE history.  The step `j:<h>` means "parse the serialisation of handles[h]" and goes
+// through the FILE entry points: handle h has one path for the whole history; WriteCodonJSON writes it the first time
+// and whenever the handle's current content differs from what the file holds; if the file already holds exactly the
+// serialisation of handles[h], it is NOT rewritten and ReadCodonJSON reads the unchanged file AGAIN.  So one path is
+// read several times, by several result handles, possibly with in-place re-weightings of earlier results in between:
+// every read must give the file's content (value semantics: a fresh copy of handles[h]).
+type histFiles struct {
+	dir     string
+	written map[int]string // handle -> table text the file holds
+}
+
+func newHistFiles() *histFiles { return &histFiles{written: map[int]string{}} }
+
+func (hf *histFiles) roundTrip(h int, t codon.Table) (codon.Table, error) {
+	if hf.dir == "" {
+		d, err := os.MkdirTemp("", fmt.Sprintf("verif-c08-%d-%d-", os.Getpid(), runner.Unique()))
+		if err != nil {
+			return codon.Table{}, err
+		}
+		hf.dir = d
 	}
-	path := f.Name()
-	f.Close()
-	defer os.Remove(path)
-	codon.WriteCodonJSON(t, path)
+	path := fmt.Sprintf("%s/h%d.json", hf.dir, h)
+	txt := tableText(t)
+	if old, ok := hf.written[h]; !ok || old != txt {
+		codon.WriteCodonJSON(t, path)
+		hf.written[h] = txt
+	}
 	return codon.ReadCodonJSON(path), nil
 }
 
+func (hf *histFiles) cleanup() {
+	if hf.dir != "" {
+		os.RemoveAll(hf.dir)
+	}
+}
+
 // one step of a history; a panic inside poly is reported as the step's output
-func histStep(handles []codon.Table, tok string) (res codon.Table, out string, bad error) {
+func histStep(hf *histFiles, handles []codon.Table, tok string) (res codon.Table, out string, bad error) {
 	defer func() {
 		if p := recover(); p != nil {
 			res, out = codon.Table{}, "panic"
@@ -160,7 +183,8 @@ func histStep(handles []codon.Table, tok string) (res codon.Table, out string, b
 		if err != nil {
 			return res, "", err
 		}
-		r, jerr := jsonRoundTrip(t)
+		hn, _ := strconv.Atoi(f[1])
+		r, jerr := hf.roundTrip(hn, t)
 		if jerr != nil {
 			return res, "", jerr
 		}
@@ -220,8 +244,10 @@ func init() {
 			out = append(out, startTable(id))
 		}
 		var handles []codon.Table
+		hf := newHistFiles()
+		defer hf.cleanup()
 		for _, tok := range args[1:] {
-			t, o, bad := histStep(handles, tok)
+			t, o, bad := histStep(hf, handles, tok)
 			if bad != nil {
 				return nil, bad
 			}
@@ -329,50 +355,89 @@ func init() {
 		if err != nil {
 			return nil, err
 		}
-		in1, in2 := tableText(t1), tableText(t2)
-		out := []string{in1, in2}
-		out = append(out, guarded(func() string { return "T" + tableText(codon.AddCodonTable(t1, t2)) }))
-		out = append(out, guarded(func() string { return "T" + tableText(codon.AddCodonTable(t2, t1)) }))
-		for _, cb := range strings.Split(args[2], ",") {
-			if cb == "" {
-				continue
-			}
-			cut, err := cutOfBits(cb)
-			if err != nil {
-				return nil, err
-			}
-			var r12 codon.Table
-			ok12 := false
-			out = append(out, guarded(func() string {
-				r, e := codon.CompromiseCodonTable(t1, t2, cut)
-				if e != nil {
-					return "err"
-				}
-				r12, ok12 = r, true
-				return "T" + tableText(r)
-			}))
-			out = append(out, guarded(func() string {
-				r, e := codon.CompromiseCodonTable(t2, t1, cut)
-				if e != nil {
-					return "err"
-				}
-				return "T" + tableText(r)
-			}))
-			out = append(out, guarded(func() string {
-				if !ok12 {
-					return "none"
-				}
-				dna, e := codon.Optimize(args[3], r12)
-				if e != nil {
-					return "err"
-				}
-				return "S" + dna
-			}))
-		}
-		// the operands must not have been written to
-		if tableText(t1) != in1 || tableText(t2) != in2 {
-			return nil, fmt.Errorf("operand mutated")
-		}
-		return out, nil
+		return pairReply(t1, t2, args[2], args[3])
 	})
+
+	// c18reuse <id:n:seqA> <seqB> <src2> <cutbits,...> <protein>
+	// ONE Table value t (a detached copy of default table n) is re-weighted in place from seqA, combined with src2's
+	// table (both argument positions, add and compromise), then THE SAME Table value (same backing arrays) is
+	// re-weighted in place from seqB and combined again.  -> the c18pair reply of phase A, "|", the c18pair reply of phase B
+	runner.Register("c18reuse", func(args []string) ([]string, error) {
+		if len(args) != 5 || !strings.HasPrefix(args[0], "id:") {
+			return nil, errors.New("usage")
+		}
+		f := strings.SplitN(args[0], ":", 3)
+		if len(f) != 3 {
+			return nil, errors.New("bad operand")
+		}
+		id, err := strconv.Atoi(f[1])
+		if err != nil {
+			return nil, err
+		}
+		u, err := c18Operand(args[2])
+		if err != nil {
+			return nil, err
+		}
+		t := parseTableText(tableText(codon.GetCodonTable(id))) // detached from the default table (C08)
+		t = t.OptimizeTable(f[2])                               // in place
+		outA, err := pairReply(t, u, args[3], args[4])
+		if err != nil {
+			return nil, err
+		}
+		t = t.OptimizeTable(args[1]) // in place again: same AminoAcids / Codons arrays
+		outB, err := pairReply(t, u, args[3], args[4])
+		if err != nil {
+			return nil, err
+		}
+		return append(append(outA, "|"), outB...), nil
+	})
+}
+
+// pairReply: t1, t2, add(t1,t2), add(t2,t1), then per cut: compromise(t1,t2,c), compromise(t2,t1,c), Optimize(protein, compromise(t1,t2,c))
+func pairReply(t1, t2 codon.Table, cuts string, protein string) ([]string, error) {
+	in1, in2 := tableText(t1), tableText(t2)
+	out := []string{in1, in2}
+	out = append(out, guarded(func() string { return "T" + tableText(codon.AddCodonTable(t1, t2)) }))
+	out = append(out, guarded(func() string { return "T" + tableText(codon.AddCodonTable(t2, t1)) }))
+	for _, cb := range strings.Split(cuts, ",") {
+		if cb == "" {
+			continue
+		}
+		cut, err := cutOfBits(cb)
+		if err != nil {
+			return nil, err
+		}
+		var r12 codon.Table
+		ok12 := false
+		out = append(out, guarded(func() string {
+			r, e := codon.CompromiseCodonTable(t1, t2, cut)
+			if e != nil {
+				return "err"
+			}
+			r12, ok12 = r, true
+			return "T" + tableText(r)
+		}))
+		out = append(out, guarded(func() string {
+			r, e := codon.CompromiseCodonTable(t2, t1, cut)
+			if e != nil {
+				return "err"
+			}
+			return "T" + tableText(r)
+		}))
+		out = append(out, guarded(func() string {
+			if !ok12 {
+				return "none"
+			}
+			dna, e := codon.Optimize(protein, r12)
+			if e != nil {
+				return "err"
+			}
+			return "S" + dna
+		}))
+	}
+	// the operands must not have been written to
+	if tableText(t1) != in1 || tableText(t2) != in2 {
+		return nil, fmt.Errorf("operand mutated")
+	}
+	return out, nil
 }
